@@ -66,6 +66,15 @@ func (db *DB) handleSubscription(ctx context.Context, r *request.Request) (<-cha
 			}
 			ctx := InitContext(ctx, txn)
 
+			// The event bus carries the updates of all collections. A document of another collection
+			// is not a result of this subscription: reading it by its docID and cid through the
+			// subscribed collection would render it (also past that other collection's policy).
+			if col, err := db.getCollectionByName(ctx, subRequest.Collection); err == nil &&
+				evt.CollectionID != "" && col.Version().CollectionID != evt.CollectionID {
+				txn.Discard(ctx)
+				continue
+			}
+
 			p := planner.New(ctx, identity.FromContext(ctx), db.documentACP, db)
 			s := subRequest.ToSelect(evt.DocID, evt.Cid.String())
 
